@@ -146,9 +146,13 @@ def _history(seed):
 def run(chk):
     quick = chk.tier == "quick"
     rng = random.Random(chk.seed)
-    r = tlc.run("PnDecode", dict(WinSet="{4, 8, 16}", Limit="128" if quick else "256", MaxSteps="3" if quick else "4"),
-                invariants=["AlwaysRfc", "Agree"], timeout=900)
-    chk.tlc("PnDecode scaled: histories + pointwise", r)
+    PN = dict(WinSet="{4, 8, 16}", Limit="128" if quick else "256", MaxSteps="3" if quick else "4", B="2", NIv="10", LowDigits="5")
+    r = tlc.run("PnDecode", PN, invariants=["AlwaysRfc", "Agree", "NonceEq", "NonceInjective"], timeout=900)
+    chk.tlc("PnDecode scaled: histories + pointwise + nonce", r)
+    r = tlc.run("PnDecode", dict(PN, MaxSteps="0"), invariants=["NonceLowOnlyInjective"], timeout=300)
+    chk.tlc("nonce from the low digits only (expected counterexample)", r, expect_ok=False)
+    if r.violated != "NonceLowOnlyInjective":
+        raise MachineryError("model: the low-digits-only nonce should be refuted")
     a1 = apalache("Agree")
     a2 = apalache("AgreeBad")
     chk.extra["apalache"] = [a1, a2]
@@ -188,6 +192,30 @@ def run(chk):
         chk.traces_validated += 1
         for b in bad:
             chk.violation(b, dict(history=steps, why=b))
+    # "... and uses as AEAD nonce": whole connections through QuicSession + QuicDecryptor whose 1-RTT packet numbers start anywhere
+    # below 2^32 and grow past 2^8 .. 2^32 and beyond (jumps of up to 2^31 - 7 per packet, 4-byte encodings): a packet is exported
+    # iff its nonce is the full reconstructed number (RFC 9001 5.3); behaviours from Quic.tla incl. key updates
+    from checks import c02
+    ku = dict(SuiteSet='{"1301","1303"}', OfferFirst='{"same"}', Splits='{<<1>>}', Retries="{FALSE}", ZeroRtts="{FALSE}", MaxApp="6", MaxGen="2")
+    behs = c02.gen(chk, ku, 12 if quick else 120, chk.seed + 5)
+    rng.shuffle(behs)
+    starts = [0, 255, (1 << 16) - 1, (1 << 24) - 2, 1 << 31, (1 << 32) - 300, (1 << 32) - 1]
+    ejobs = []
+    for b in behs[: 120 if quick else 2500]:
+        pm = dict(c_cid_len=rng.choice([0, 8]), s_cid_len=rng.choice([4, 8]), pnlen={"c": 4, "s": 4}, pn_gaps=rng.choice(["big", "huge", "huge"]),
+                  pn_start={"c": {"a": rng.choice(starts)}, "s": {"a": rng.choice(starts)}})
+        ejobs.append((b, rng.randrange(1 << 30), pm, []))
+    maxpn = 0
+    for res in pool_map(c02._one, ejobs):
+        if "machinery" in res:
+            raise MachineryError("harness: " + res["machinery"])
+        chk.evaluations += 1
+        chk.traces_validated += 1
+        maxpn = max([maxpn] + [m["pn"] for g in res["pkts"] for m in g])
+        if not res["ok"]:
+            chk.violation("connection with 1-RTT packet numbers from %s: %s" % (res["params"]["pn_start"], res["why"]),
+                          dict(behaviour=res["b"], seed=res["seed"], params=res["params"], why=res["why"]))
+    chk.extra["largest_packet_number_decrypted_end_to_end"] = maxpn
     chk.sample(dict(boundary_witnesses=len(witnesses()), example=pts[5]))
     chk.sample(dict(history=hs[0][1][:8]))
     chk.rule = ("points (largest, truncated, length): every boundary witness of the three branch predicates for each width at largest in "
